@@ -59,6 +59,10 @@ def compare(model_name, pid, traces, chunk=400):
        {id, n, diverge: None | (index, impl_obs, model_obs), impl_mon: None | (index, clause),
         model_mon: None | (index, clause), error}"""
     results = []
+    ids = [t["id"] for t in traces]
+    if len(set(ids)) != len(ids):
+        dup = sorted({i for i in ids if ids.count(i) > 1})[:3]
+        raise RuntimeError(f"harness bug: duplicate trace ids {dup} (traces are keyed by id)")
     for k in range(0, len(traces), chunk):
         part = traces[k:k + chunk]
         text = "\n".join("#" + t["id"] + "\n" + "\n".join(t["lines"]) for t in part) + "\n"
